@@ -103,6 +103,34 @@ def make_variant(rng, ref, pos, kind, max_len=4, shiftable_ok=False):
         if not shiftable_ok and (dele[0] == ref[pos + 1 + k] or dele[-1] == ref[pos]):
             return None
         return (pos, ref[pos] + dele, ref[pos])
+    if kind == "insR":      # right-anchored record: the inserted bases stand before the reference base at pos
+        k = rng.randint(1, max_len)
+        if pos < 1:
+            return None
+        for _ in range(30):
+            ins = rand_seq(rng, k, homopolymers=True)
+            if shiftable_ok or (ins[0] != ref[pos] and ins[-1] != ref[pos - 1]):
+                return (pos, ref[pos], ins + ref[pos])
+        return None
+    if kind == "delR":      # right-anchored deletion of ref[pos : pos+k]
+        k = rng.randint(1, max_len)
+        if pos < 1 or pos + k >= L:
+            return None
+        dele = ref[pos:pos + k]
+        if not shiftable_ok and (dele[0] == ref[pos + k] or dele[-1] == ref[pos - 1]):
+            return None
+        return (pos, dele + ref[pos + k], ref[pos + k])
+    if kind == "cpx":       # replacement of k bases by m != k bases, nothing to strip by normalisation
+        k = rng.randint(1, 3)
+        if pos + k >= L:
+            return None
+        r = ref[pos:pos + k]
+        for _ in range(30):
+            m = rng.choice([x for x in (1, 2, 3, 4) if x != k])
+            a = rand_seq(rng, m, homopolymers=True)
+            if a[0] != r[0] and a[-1] != r[-1]:
+                return (pos, r, a)
+        return None
     raise ValueError(kind)
 
 
@@ -110,7 +138,14 @@ def kind_of(v):
     pos, r, a = v
     if len(r) == len(a):
         return "snv" if len(r) == 1 else "mnp"
+    _, nr, na = normalize(pos, r, a)
+    if nr and na:
+        return "cpx"
     return "ins" if len(a) > len(r) else "del"
+
+
+def is_right_anchored(v):
+    return len(v[1]) != len(v[2]) and kind_of(v) != "cpx" and normalize(*v)[0] == v[0]
 
 
 def shiftable(ref, v):
